@@ -259,6 +259,68 @@ func c15R2(c *Ctx, rule string) {
 			c.Bad(rule, "writeMeta:return-nil", c.P.Pos(fn.Pos()), "one success return", fmt.Sprintf("%d", n))
 		}
 	}
+	// readMeta is writeMeta's sibling: same file name under the snapshot's
+	// directory, same codec, same struct; any open/decode error is returned.
+	if fn := c.Fn(rule, "(*FileSnapshotStore).readMeta"); fn != nil {
+		var fh string
+		for _, s := range c.P.CallsIn(fn, engine.Is("os.Open")) {
+			fh = c.CallDesc(s.Instr)
+			elems := sliceLit(c, fn, engine.CallCommonOf(c.FirstCall(fn, engine.Is("path/filepath.Join"))).Args[0])
+			ok := len(elems) == 3 && elems[0] == "recv.path" && elems[1] == "p1" && strings.Contains(elems[2], "meta.json")
+			c.Check(rule, "readMeta:path", c.P.InstrPos(s.Instr), "metadata is read from <store path>/<name>/meta.json – the file writeMeta wrote before the rename", ok, fmt.Sprintf("Join(%v)", elems), 1)
+		}
+		decT := ""
+		var decD string
+		for _, s := range c.P.CallsIn(fn, engine.Is("(*encoding/json.Decoder).Decode")) {
+			if mi, ok := engine.ArgValue(s.Instr, 0).(*ssa.MakeInterface); ok {
+				decT = c.P.TypeStr(mi.X.Type())
+			}
+			decD = c.P.D(engine.RecvValue(s.Instr))
+		}
+		encT := ""
+		if wf := c.P.Fn("(*FileSnapshotSink).writeMeta"); wf != nil {
+			for _, s := range c.P.CallsIn(wf, engine.Is("(*encoding/json.Encoder).Encode")) {
+				if mi, ok := engine.ArgValue(s.Instr, 0).(*ssa.MakeInterface); ok {
+					encT = c.P.TypeStr(mi.X.Type())
+				}
+			}
+		}
+		c.Check(rule, "readMeta:same-codec-and-type", c.P.Pos(fn.Pos()), "the reader decodes, with encoding/json from the opened file, the struct type the writer encoded", decT != "" && decT == encT && strings.Contains(decD, fh+"#0"), "writer "+encT+" / reader "+decT, 1)
+		r := c.Run(&engine.Automaton{Fn: fn, Tracks: []engine.Track{
+			engine.PredRel("openErr", fh+"#1", "nil", engine.LT|engine.GT),
+			engine.Event("decoded", c.P.IsCallTo(engine.Is("(*encoding/json.Decoder).Decode"))),
+			engine.PredCond("decErr", func(cd engine.Cond) (bool, int) {
+				if cd.IsRel && strings.Contains(cd.X, ".Decode(") && cd.Y == "nil" {
+					if isNEc(cd) {
+						return true, engine.True
+					}
+					return true, engine.False
+				}
+				return false, 0
+			}),
+		}})
+		n := 0
+		for i, ret := range engine.ReturnsOf(fn) {
+			vals := engine.ReturnValues(ret)
+			if len(vals) != 2 {
+				continue
+			}
+			m, e := c.P.D(vals[0]), c.P.D(vals[1])
+			if m == "new(*fileSnapshotMeta)" && e == "new(error)" {
+				continue // recover block of the deferred close: named results as last stored
+			}
+			n++
+			c.RequireAt(r, rule, fmt.Sprintf("readMeta:return#%d", i+1), ret, "metadata is returned with a nil error only after open and decode both succeeded; every failure returns (nil, that error), so getSnapshots skips the directory", func(v engine.View) bool {
+				if e == "nil" {
+					return v.F("openErr") && v.Seen("decoded") && v.F("decErr") && m == "new(fileSnapshotMeta)"
+				}
+				return m == "nil" && (strings.HasPrefix(e, "os.Open(") || strings.Contains(e, ".Decode("))
+			})
+		}
+		if n < 3 {
+			c.Bad(rule, "readMeta:returns", c.P.Pos(fn.Pos()), "three classified returns", fmt.Sprintf("%d", n))
+		}
+	}
 	if fn := c.Fn(rule, "(*FileSnapshotStore).Create"); fn != nil {
 		// directory name ends in .tmp
 		var mk ssa.Instruction
